@@ -343,6 +343,28 @@ func runRotate(c *ctx) error {
 	// dense week: the parameter negates about 2% of the eligible slots of the
 	// reply, so an archived week with many slots makes any write-through into
 	// the archive visible
+	// cadence: the start-up catch-up stops below 4000 slots of lag, above the rotation trigger: the rotation thread
+	// takes over at once. A server restarted with such a lag and closed immediately has polled (and rotated).
+	if c.part("cadence") {
+		s.WithDisk = true
+		for i, lag := range []uint32{3700, 3201, 3999, 3300} {
+			if err := begin(fmt.Sprintf("rotate/cadence/%d", i), 500, 1); err != nil {
+				return err
+			}
+			r.report(1, 490, 33)
+			r.Close()
+			r.Tick(lag)
+			if err := r.Start(); err != nil {
+				return err
+			}
+			r.Close()
+			if err := r.Start(); err != nil {
+				return err
+			}
+			r.QueryStats("0", 0, false)
+			r.QueryStats("2016", 2016, false)
+		}
+	}
 	if c.part("dense") {
 		s.WithDisk = false
 		if err := begin("rotate/dense", 432, 1); err != nil {
